@@ -80,6 +80,7 @@ def _get_placement(start, end, lines):
             size = span_number = number or 1
             span_ident = ident
             if span_ident is not None:
+                size = 0
                 for size, line in enumerate(lines[coord+1:], start=1):
                     if span_ident in line:
                         span_number -= 1
